@@ -166,6 +166,56 @@ def showTok : CTok → String
   | .cm s => s!"<!--{s}-->"
   | .dt => "<!doctype>"
 
+/-! ### generated identifiers: 16 hex digits, α-renamed in order of first appearance -/
+
+def isHexLower (ch : Char) : Bool := ch.isDigit || ('a' ≤ ch && ch ≤ 'f')
+def isWordCh (ch : Char) : Bool := ch.isAlphanum
+
+def idName (n : Nat) : String :=
+  let d := toString n
+  "ID" ++ String.mk (List.replicate (14 - d.length) '0') ++ d
+
+/-- rename every maximal alphanumeric run that is exactly 16 lower-case hex digits -/
+def alphaStr (m : List (String × String)) (s : String) : String × List (String × String) := Id.run do
+  let cs := s.toList.toArray
+  let mut out : Array Char := #[]
+  let mut mp := m
+  let mut i := 0
+  while i < cs.size do
+    if isWordCh cs[i]! then
+      let mut j := i
+      while j < cs.size && isWordCh cs[j]! do j := j + 1
+      let run := (cs.extract i j).toList
+      if run.length == 16 && run.all isHexLower then
+        let key := String.mk run
+        match mp.find? (fun p => p.1 == key) with
+        | some p => out := out ++ p.2.toList.toArray
+        | none =>
+          let nm := idName mp.length
+          mp := mp ++ [(key, nm)]
+          out := out ++ nm.toList.toArray
+      else
+        out := out ++ run.toArray
+      i := j
+    else
+      out := out.push cs[i]!
+      i := i + 1
+  return (String.mk out.toList, mp)
+
+def alphaAttrs (m : List (String × String)) : List Attr → List Attr × List (String × String)
+  | [] => ([], m)
+  | (k, v) :: r =>
+    let (v', m1) := alphaStr m v
+    let (r', m2) := alphaAttrs m1 r
+    ((k, v') :: r', m2)
+
+def alphaToks (m : List (String × String)) : List CTok → List CTok
+  | [] => []
+  | .o n a :: r => let (a', m') := alphaAttrs m a; .o n a' :: alphaToks m' r
+  | .v n a :: r => let (a', m') := alphaAttrs m a; .v n a' :: alphaToks m' r
+  | .t s :: r => let (s', m') := alphaStr m s; .t s' :: alphaToks m' r
+  | x :: r => x :: alphaToks m r
+
 /-- first index at which two canonical token lists differ -/
 def firstDiff : Nat → List CTok → List CTok → Option (Nat × String × String)
   | _, [], [] => none
@@ -280,6 +330,13 @@ def mergeH (ts : List HTok) : List HTok :=
     | .cc => HTok.msoClose
     | .t i => arr[i]!
 
+/-- fragments are concatenated as bytes: two text tokens that become adjacent are one text -/
+def joinTexts : List HTok → List HTok
+  | .text a :: .text b :: r => joinTexts (.text (a ++ b) :: r)
+  | x :: r => x :: joinTexts r
+  | [] => []
+termination_by l => l.length
+
 def blocksOf (refHtml : ByteArray) : Option (List HTok × List (List HTok)) :=
   match bodyChildren (Lex.lex refHtml) with
   | none => none
@@ -294,13 +351,13 @@ def kindOf (g : List HTok) : String :=
 
 def cmpHandle (args : List String) : String :=
   match args with
-  | [a, b] => report (canon (Lex.lex (unhex a)).toList) (canon (Lex.lex (unhex b)).toList)
+  | [a, b] => report (alphaToks [] (canon (Lex.lex (unhex a)).toList)) (alphaToks [] (canon (Lex.lex (unhex b)).toList))
   | _ => "bad-request"
 
 /-- `refcanon <hex>`: the canonical tokens, one per word, hex-encoded -/
 def canonHandle (args : List String) : String :=
   match args with
-  | [a] => " ".intercalate ((canon (Lex.lex (unhex a)).toList).map fun t => Driver.HtmlP.hexS (showTok t))
+  | [a] => " ".intercalate ((alphaToks [] (canon (Lex.lex (unhex a)).toList)).map fun t => Driver.HtmlP.hexS (showTok t))
   | _ => "bad-request"
 
 def splitHandle (args : List String) : String :=
@@ -319,7 +376,7 @@ def pickBlocks : List String → Option (List HTok)
     match blocksOf (unhex r), i.toNat?, pickBlocks rest with
     | some (_, groups), some k, some more =>
       match groups[k]? with
-      | some g => some (g ++ more)
+      | some g => some (g.map (fun t => match t with | .text s => HTok.text (wsCollapse s) | x => x) ++ more)   -- boundary white space of a beautified reference is formatting
       | none => none
     | _, _, _ => none
   | _ => none
@@ -328,7 +385,78 @@ def composeHandle (args : List String) : String :=
   match args with
   | real :: refs =>
     match bodyChildren (Lex.lex (unhex real)), pickBlocks refs with
-    | some kids, some expected => report (canon kids) (canon (mergeH expected))
+    | some kids, some expected => report (alphaToks [] (canon (joinTexts kids))) (alphaToks [] (canon (joinTexts (mergeH expected))))
+    | none, _ => "no-body"
+    | _, none => "bad-blocks"
+  | _ => "bad-request"
+
+/-! ### the Model of the body loop (`Merge.bodyLoop`) run on real solo outputs -/
+
+structure RBlk where
+  toks : List HTok      -- body children of the block rendered alone
+  chain : Bool
+  consumes : Bool
+
+def isMsoIE : HTok → Bool
+  | .msoOpen cnd => wsCollapse cnd == "mso | IE"
+  | _ => false
+
+def isMsoClose : HTok → Bool
+  | .msoClose => true
+  | _ => false
+
+/-- abstract a list of real blocks: token `t i` = entry `i` of the table of all non-marker tokens -/
+def abstractBlocks (bs : List RBlk) : List Merge.Blk × Array HTok := Id.run do
+  let mut table : Array HTok := #[]
+  let mut out : Array Merge.Blk := #[]
+  for b in bs do
+    let ts := b.toks.filter (fun t => !isBlankText t)
+    let startsCO := match ts.head? with | some t => isMsoIE t | none => false
+    let endsCC := match ts.getLast? with | some t => isMsoClose t && ts.length > 1 | none => false
+    let mid := (if startsCO then ts.tail else ts)
+    let mid := (if endsCC then mid.dropLast else mid)
+    let mut body : Array Merge.Tok := #[]
+    for t in mid do
+      if isMsoIE t then body := body.push Merge.Tok.co
+      else if isMsoClose t then body := body.push Merge.Tok.cc
+      else
+        body := body.push (Merge.Tok.t table.size)
+        table := table.push t
+    out := out.push { body := body.toList, startsCO := startsCO, endsCC := endsCC, chain := b.chain, consumes := b.consumes, blank := ts.isEmpty }
+  return (out.toList, table)
+
+def concrete (table : Array HTok) (ts : List Merge.Tok) : List HTok :=
+  ts.map fun a => match a with
+    | .co => HTok.msoOpen "mso | IE"
+    | .cc => HTok.msoClose
+    | .t i => table[i]!
+
+/-- decidable part of `Merge.Blk.WF` -/
+def blkWF (b : Merge.Blk) : Bool :=
+  (!b.chain || b.endsCC) && (!b.consumes || b.startsCO) && (b.blank == b.body.isEmpty) &&
+  (!b.blank || (!b.startsCO && !b.endsCC && !b.chain && !b.consumes)) &&
+  (b.body.head? != some Merge.Tok.co) && (b.body.getLast? != some Merge.Tok.cc) &&
+  (Merge.merge b.body == b.body)
+
+def parseRBlks : List String → Option (List RBlk)
+  | [] => some []
+  | h :: f :: rest =>
+    match bodyChildren (Lex.lex (unhex h)), parseRBlks rest with
+    | some kids, some more => some (⟨kids, f.contains 'c', f.contains 'n'⟩ :: more)
+    | _, _ => none
+  | _ => none
+
+/-- `refloop <hexComposed> (<hexSolo> <flags>)…`  flags: `c` chain, `n` consumes, `-` none.
+    Answers `wf=<0|1>` and the comparison of the composed body with the Model's body loop on the solo outputs. -/
+def loopHandle (args : List String) : String :=
+  match args with
+  | real :: blocks =>
+    match bodyChildren (Lex.lex (unhex real)), parseRBlks blocks with
+    | some kids, some bs =>
+      let (abs, table) := abstractBlocks bs
+      let wf := abs.all blkWF
+      let model := concrete table (Merge.bodyLoop abs)
+      s!"wf={if wf then 1 else 0} " ++ report (alphaToks [] (canon (joinTexts kids))) (alphaToks [] (canon (joinTexts model)))
     | none, _ => "no-body"
     | _, none => "bad-blocks"
   | _ => "bad-request"
